@@ -54,6 +54,7 @@ EXPLANATION = (
 ASSUMPTIONS = ["scipy.sparse.csgraph.breadth_first_order returns the nodes reachable from the start node",
                "numpy arithmetic propagates NaN", "transient=False"]
 TECHNIQUE = "per-class value numbering of extract_results with selector/NaN-strictness analysis; CFG dominance; structural agreement checks"
+EXPLANATION += (' ' + "(R4.12) where the component models share a junction value among the elements connected to it, the multiplicity counts in-service elements only: the keys of every counting grouping (np.unique(.., return_counts=True), _sum_by_group with a ones_like value) are rows selected by the table's in_service flag, in the function or -- for keys that are a parameter -- in the argument of every call.")
 
 
 def _shape(ok, what):
